@@ -166,9 +166,10 @@ PROPS["C13"] = dict(
     rule=("all 23 Church operations on the square m, n <= 5 (quick) / 7 (thorough) (smaller for pow, fac, shl), under NOR, "
           "HNO, HAP and (operations without a fixed-point combinator) APP; non-trivial = at least one contraction"),
     trusted_base=DATA_TB, assumptions=DATA_ASM,
-    explanation=("Proved for all arguments: soundness under every normalising order and NOR completeness (so a reachable "
-                 "numeral is what NOR returns). Bounded in-kernel grid (m, n <= 3) on the generated constants for all 23 "
-                 "operations and all documented orders. The unbounded convertibility theorems are being added per operation."))
+    explanation=("Theorems for ALL m, n on the generated constants: each of the 23 Church operations applied to numerals reduces "
+                 "to the encoding of the expected number / boolean / pair (Proofs/ChurchArith.v: iteration lemma, inductions over "
+                 "numerals, Z-unfolding with strong induction for div/quot/rem/shr); hence NOR returns it (C07) and any result "
+                 "of HNO/APP/HAP is it (C06). Termination of HNO/HAP/APP: bounded in-kernel grid (m, n <= 3)."))
 PROPS["C14"] = dict(
     suites=["ops:othernum"], oracle_re=r"oracle:C14:", gen=True,
     rule=("Scott/Parigot/Stump-Fu operations and the 7 conversions for m, n <= 4 (quick) / 6 (thorough), binary 0..40/70 "
